@@ -6,6 +6,7 @@ package simrt
 
 import (
 	"fmt"
+	"os"
 	"hash/fnv"
 	"runtime"
 	"sort"
@@ -174,7 +175,7 @@ func RunOnce(t *testing.T, cfg Config, dec *Decider, body func(s *Sim)) (res *Re
 	if cfg.PCTSteps == 0 {
 		cfg.PCTSteps = 300
 	}
-	s := &Sim{cfg: cfg, dec: dec, sig: make(chan struct{}, 1), pending: -1,
+	s := &Sim{cfg: cfg, dec: dec, pending: -1,
 		probes: map[string]int{}, faults: map[string]int{}, logHash: fnvOff, schHash: fnvOff}
 	s.initStrategy()
 	res = &Result{}
@@ -191,6 +192,7 @@ func RunOnce(t *testing.T, cfg Config, dec *Decider, body func(s *Sim)) (res *Re
 		}()
 		synctest.Test(t, func(t *testing.T) {
 			cur = s
+			s.sig = make(chan struct{}, 1) // must be a bubble channel: a select on it has to block durably
 			s.start = time.Now()
 			s.main = s.newTask(nil, "main")
 			s.main.state = stRunnable
@@ -333,6 +335,9 @@ func (s *Sim) release(t *Task) {
 	}
 	s.switches++
 	s.schHash = mix(s.schHash, uint64(t.seq)+1)
+	if s.cfg.KeepLog && os.Getenv("VERIF_VERBOSE") != "" {
+		s.log = append(s.log, fmt.Sprintf("%6d sched    -> %s (%s)", s.step, t.id, t.Name))
+	}
 	t.state = stRunning
 	s.current = t
 	t.gate <- struct{}{}
@@ -500,6 +505,9 @@ func Block(t *Task, why string) {
 	s := cur
 	t.state = stBlockedSync
 	t.waitOn = why
+	if s.cfg.KeepLog && os.Getenv("VERIF_VERBOSE") != "" {
+		s.log = append(s.log, fmt.Sprintf("%6d %-8s blocks on %s", s.step, t.id, why))
+	}
 	s.park(t)
 	t.waitOn = ""
 }
